@@ -289,20 +289,32 @@ func TestScope(t *testing.T) {
 type PoolCase struct {
 	O      san.Options `json:"o"`
 	Inputs []pbt.S     `json:"inputs"`
+	// O2 (optional): a SECOND sanitizer with other options is used by the same goroutines in
+	// rotation, and names, keys and values are sanitized in turn (buffers are recycled process-wide)
+	O2 *san.Options `json:"o2,omitempty"`
 }
 
 func genPool(t *rapid.T) PoolCase {
 	c := PoolCase{O: san.GenOptions().Draw(t, "opts")}
 	g := san.GenInput(c.O.Name, c.O.Repl)
 	c.Inputs = rapid.SliceOfN(g, 4, 16).Draw(t, "inputs")
+	if rapid.Bool().Draw(t, "second") {
+		o2 := san.GenOptions().Draw(t, "opts2")
+		c.O2 = &o2
+		c.Inputs = append(c.Inputs, rapid.SliceOfN(san.GenInput(o2.Value, o2.Repl), 2, 8).Draw(t, "inputs2")...)
+	}
 	return c
 }
 
 func runPool(c PoolCase) (pbt.Outcome, error) {
 	var errs pbt.Errs
 	var mu sync.Mutex
-	s := tally.NewSanitizer(c.O.Tally())
-	mo := c.O.Model()
+	sans := []tally.Sanitizer{tally.NewSanitizer(c.O.Tally())}
+	mos := []*model.Opts{c.O.Model()}
+	if c.O2 != nil {
+		sans = append(sans, tally.NewSanitizer(c.O2.Tally()))
+		mos = append(mos, c.O2.Model())
+	}
 	var wg sync.WaitGroup
 	changed := 0
 	for g := 0; g < 16; g++ {
@@ -311,8 +323,16 @@ func runPool(c PoolCase) (pbt.Outcome, error) {
 			defer wg.Done()
 			for round := 0; round < 20; round++ {
 				in := string(c.Inputs[(g+round)%len(c.Inputs)])
-				got := s.Name(in)
-				want := mo.Name.Sanitize(in, mo.Repl)
+				s, mo := sans[(g+round)%len(sans)], mos[(g+round)%len(sans)]
+				var got, want string
+				switch kind := (g/2 + round) % 3; {
+				case c.O2 == nil || kind == 0:
+					got, want = s.Name(in), mo.Name.Sanitize(in, mo.Repl)
+				case kind == 1:
+					got, want = s.Key(in), mo.Key.Sanitize(in, mo.Repl)
+				default:
+					got, want = s.Value(in), mo.Value.Sanitize(in, mo.Repl)
+				}
 				if got != want {
 					mu.Lock()
 					errs.Addf("concurrent sanitize(%q) = %q, sequential reference %q", in, got, want)
@@ -333,7 +353,7 @@ func runPool(c PoolCase) (pbt.Outcome, error) {
 func TestPool(t *testing.T) {
 	pbt.Main(t, pbt.Prop[PoolCase]{
 		ID: "C06", Name: "pool",
-		Rule: "free-running mode (real parallelism, -race): 16 goroutines x 20 rounds sanitise 4..16 generated strings through one sanitizer (shared buffer pool); each result compared with the sequential reference; race detector on. Non-trivial: at least one input needed a buffer (was changed).",
+		Rule: "free-running mode (real parallelism, -race): 16 goroutines x 20 rounds sanitise 4..16 generated strings through one sanitizer - or, half the time, names, keys and values in rotation through two sanitizers with different options (buffers are recycled process-wide); each result compared with the sequential reference; race detector on. Non-trivial: at least one input needed a buffer (was changed).",
 		Gen:  genPool, Run: runPool, Retries: 30, HangAfter: 60 * time.Second,
 	})
 }
